@@ -57,8 +57,12 @@ func init() {
 	specs["C15"] = func(tier string) (*Plan, error) {
 		u := staticUnit("runtime", "runtime", "runtime_c15.go.txt")
 		skipN, groupN := "7", "6"
+		maxPaths := 20000
 		if tier == "thorough" {
-			skipN, groupN = "9", "8"
+			// measured: one more byte multiplies the group harnesses' paths by ~7 (9/8 bytes
+			// exhausted a 20000-path budget); 8/7 is what runs clean
+			skipN, groupN = "8", "7"
+			maxPaths = 400000
 		}
 		u.subst("const vhSkipN = 8      // SKIPN", "const vhSkipN = "+skipN)
 		u.subst("const vhSkipGroupN = 7 // SKIPGROUPN", "const vhSkipGroupN = "+groupN)
@@ -67,7 +71,7 @@ func init() {
 			Patterns: []string{"./runtime"},
 			Units:    []*Unit{u},
 			Regex:    "^VH_C15_",
-			Cfg:      sym.Config{MaxLoop: 80, NoSummaries: true}, // C15 is about the real helpers themselves
+			Cfg:      sym.Config{MaxLoop: 80, NoSummaries: true, MaxPaths: maxPaths}, // C15 is about the real helpers themselves
 			Bounds: map[string]string{
 				"Sov/Soz":      "all 2^64 values",
 				"EncodeVarint": "buffer length 0..2^20 symbolic, offset and value unconstrained 64-bit",
